@@ -20,6 +20,7 @@ mod eng_watch;
 mod srctree;
 mod eng_src;
 mod eng_dir;
+mod eng_iso;
 
 use common::*;
 use std::{fs, io::Write, path::PathBuf};
@@ -34,6 +35,7 @@ fn engines() -> Vec<Box<dyn Engine>> {
     v.push(Box::new(eng_watch::WatchEngine::default()));
     v.push(Box::new(eng_src::SrcEngine::default()));
     v.push(Box::new(eng_dir::DirEngine::default()));
+    v.push(Box::new(eng_iso::IsoEngine::default()));
     v
 }
 
